@@ -24,6 +24,7 @@ SOFTWARE.
 Parse the input YAML for the bindings
 """
 
+from copy import deepcopy
 from typing import Dict, List, Optional
 
 from teaal.parse.yaml import YamlParser
@@ -86,7 +87,7 @@ class Bindings:
 
         for einsum in self.components:
             if name in self.components[einsum].keys():
-                info[einsum] = self.components[einsum][name]
+                info[einsum] = deepcopy(self.components[einsum][name])
 
         return info
 
